@@ -547,10 +547,56 @@ class LNurikabe(LargeSpec):
 
     def make(self, draw):
         h, w = board(draw)
+        if draw(st.integers(0, 2)) > 0 and h >= 2 and w >= 2:
+            made = self.plant(draw, h, w)
+            if made is not None:
+                return made
         prob = [[0] * w for _ in range(h)]
         for (y, x) in sparse_cells(draw, h, w, 6, non_adjacent=True):
             prob[y][x] = -1
         return dict(inst=dict(h=h, w=w, problem=prob), planted=None)
+
+    def plant(self, draw, h, w):
+        """independent planting: start from an all-black board and carve islands until no 2x2 black block
+        is left.  A cell of a black block becomes white if the sea stays connected and the cell touches
+        at most one island (which it then joins)."""
+        cells = all_cells(h, w)
+        island = {}          # white cell -> island id
+        n_islands = 0
+        for _ in range(4 * h * w):
+            blocks = [(y, x) for y in range(h - 1) for x in range(w - 1)
+                      if all((y + dy, x + dx) not in island for dy in (0, 1) for dx in (0, 1))]
+            if not blocks:
+                break
+            y, x = blocks[draw(st.integers(0, len(blocks) - 1))]
+            done = False
+            for c in draw(st.permutations([(y, x), (y + 1, x), (y, x + 1), (y + 1, x + 1)])):
+                touching = {island[q] for q in neighbors4(c[0], c[1], h, w) if q in island}
+                if len(touching) > 1:
+                    continue
+                black = set(cells) - set(island) - {c}
+                if not black or not connected(black):
+                    continue
+                if touching:
+                    island[c] = next(iter(touching))
+                else:
+                    island[c] = n_islands
+                    n_islands += 1
+                done = True
+                break
+            if not done:
+                return None
+        else:
+            return None
+        white = set(island)
+        prob = [[0] * w for _ in range(h)]
+        for comp in components(white):
+            cs = sorted(comp)
+            y, x = cs[draw(st.integers(0, len(cs) - 1))]
+            prob[y][x] = len(comp) if draw(st.integers(0, 3)) else -1
+        inst = dict(h=h, w=w, problem=prob)
+        flat = tuple(c in white for c in cells)
+        return dict(inst=inst, planted=list(flat)) if self.check(inst, flat) is True else None
 
     def check(self, inst, flat):
         h, w, p = inst["h"], inst["w"], inst["problem"]
@@ -724,6 +770,26 @@ class LYinyang(LargeSpec):
 
     def make(self, draw):
         h, w = board(draw, 4, 6, 36)
+        if draw(st.integers(0, 2)) > 0 and h >= 3 and w >= 2:
+            # independent planting: two interlocking combs (black: top row and the even columns down to the
+            # last row but one; white: the rest) obey every rule; then a random walk of single-cell flips
+            # that keeps the grid rule-obeying (decided by the checker on the clue-free board)
+            cells = all_cells(h, w)
+            black = {(0, x) for x in range(w)} | {(y, x) for y in range(1, h - 1) for x in range(0, w, 2)}
+            free = dict(h=h, w=w, problem=[[0] * w for _ in range(h)])
+            if self.check(free, tuple(c in black for c in cells)) is True:
+                for _ in range(draw(st.integers(0, 3 * h * w))):
+                    c = cells[draw(st.integers(0, len(cells) - 1))]
+                    black ^= {c}
+                    if self.check(free, tuple(q in black for q in cells)) is not True:
+                        black ^= {c}
+                if draw(st.booleans()):
+                    black = set(cells) - black      # colours swapped
+                prob = [[0] * w for _ in range(h)]
+                for (y, x) in cells:
+                    if draw(st.integers(0, 3)) == 0:
+                        prob[y][x] = 2 if (y, x) in black else 1
+                return dict(inst=dict(h=h, w=w, problem=prob), planted=[c in black for c in cells])
         prob = [[0] * w for _ in range(h)]
         for (y, x) in sparse_cells(draw, h, w, 12):
             prob[y][x] = draw(st.sampled_from([1, 2]))
